@@ -121,6 +121,13 @@ func (f *Formatter) Format(vcl *ast.VCL) io.Reader {
 		}
 		buf.WriteString(decl.Buffer)
 	}
+	// comments behind the last declaration, on lines of their own
+	if len(vcl.Trailing) > 0 {
+		if len(decls) > 0 {
+			buf.WriteString("\n")
+		}
+		buf.WriteString(strings.TrimRight(f.formatComment(vcl.Trailing, "\n", 0), "\n"))
+	}
 	buf.WriteString("\n")
 
 	// Never start the output with empty lines: formatting the output again would drop them
